@@ -1,4 +1,5 @@
 import SafeNet.Proofs.LifecycleCmd
+import SafeNet.Proofs.LifecyclePorts
 /-!
 # C19 — service lifecycle state matches the managed processes, even under faults
 
@@ -169,13 +170,12 @@ theorem stop_remove_leave_nothing_witness : ¬ StopRemoveLeaveNothing := by
   have h1 := (h orphanHistory (.stop 0 []) 0 ⟨1, .added, none, none, none, 30000, 1, none, none, none⟩ rfl (by decide) (by decide)).1
   exact h1 ⟨100, 1, 40100, 30000⟩ (by decide) rfl
 
-theorem stop_remove_leave_nothing_partial (ops : List Op) (op : Op) (i : Nat) (s : Svc)
-    (hop : isStopOrRemove i op = true) (hget : (run World.init ops).reg[i]? = some s)
-    (hno : NoOrphan (run World.init ops) s) (hok : (result (run World.init ops) op).failed = false) :
-    NoProc (step (run World.init ops) op).os s.number ∧
-    ∃ s', (step (run World.init ops) op).reg[i]? = some s' ∧ s'.pid = none := by
-  have hpid := (run_inv World.init ops inv_init).pid s (List.mem_of_getElem? hget)
-  generalize run World.init ops = w at *
+/-- One successful `stop` / `remove` from any state: the entry records a pid only together with Running (`hpid`) and has
+no unrecorded live process (`hno`). -/
+theorem stop_remove_step (w : World) (op : Op) (i : Nat) (s : Svc)
+    (hop : isStopOrRemove i op = true) (hget : w.reg[i]? = some s) (hpid : PidOk s)
+    (hno : NoOrphan w s) (hok : (result w op).failed = false) :
+    NoProc (step w op).os s.number ∧ ∃ s', (step w op).reg[i]? = some s' ∧ s'.pid = none := by
   cases op with
   | stop j faults =>
     have hij : i = j := by simpa [isStopOrRemove] using hop
@@ -210,6 +210,13 @@ theorem stop_remove_leave_nothing_partial (ops : List Op) (op : Op) (i : Nat) (s
   | kill _ => simp [isStopOrRemove] at hop
   | flaky _ _ => simp [isStopOrRemove] at hop
   | saveload => simp [isStopOrRemove] at hop
+
+theorem stop_remove_leave_nothing_partial (ops : List Op) (op : Op) (i : Nat) (s : Svc)
+    (hop : isStopOrRemove i op = true) (hget : (run World.init ops).reg[i]? = some s)
+    (hno : NoOrphan (run World.init ops) s) (hok : (result (run World.init ops) op).failed = false) :
+    NoProc (step (run World.init ops) op).os s.number ∧
+    ∃ s', (step (run World.init ops) op).reg[i]? = some s' ∧ s'.pid = none :=
+  stop_remove_step _ op i s hop hget ((run_inv World.init ops inv_init).pid s (List.mem_of_getElem? hget)) hno hok
 
 /-- A refresh that went through (the partial one every `antctl` command runs first, or a successful full one)
 removes the hypothesis: afterwards no service has an unrecorded live process. -/
@@ -462,6 +469,128 @@ theorem requested_port_refused (w : World) (count : Nat) (np mp rp : Option (Nat
         · obtain ⟨e, he⟩ := checkRange_refuses rp count _ p hp hin
           simp [checkRpc, he] at h3
 
+/-- ... and so is an `add` two of whose requested node / metrics / RPC ranges share a port: the port would be recorded
+for two of the new services (`--count 2 --node-port 8000-8001 --metrics-port 8001-8002`: antnode2's node port is
+antnode1's metrics port, which antnode1 records before antnode2 is added) or twice for one (`--node-port 8000
+--rpc-port 8000`). `add_node` compared each requested range with the registry's state before the call only; now the
+three ranges are compared with each other up front (`check_port_ranges_disjoint`, flag
+`requestedRangesDisjointChecked` regenerated from add_services/mod.rs). -/
+theorem requested_twice_refused (w : World) (count : Nat) (np mp rp : Option (Nat × Nat)) (metrics : Bool)
+    (ver : Nat) (faults : List Fault) (x y : Nat × Nat) (p : Nat)
+    (hxy : (mp = some x ∧ np = some y) ∨ (rp = some x ∧ np = some y) ∨ (rp = some x ∧ mp = some y))
+    (hx : p ∈ prPorts x) (hy : p ∈ prPorts y) :
+    step w (.add count np mp rp metrics ver faults) = w ∧
+    (result w (.add count np mp rp metrics ver faults)).failed = true ∧
+    (exec w (.add count np mp rp metrics ver faults)).2.2 = 0 := by
+  have hov : ¬ NoOverlap x y := by
+    intro h
+    unfold NoOverlap at h
+    have h1 := (mem_prPorts x p).mp hx
+    have h2 := (mem_prPorts y p).mp hy
+    unfold prCount at h1 h2
+    rw [Nat.max_def, Nat.min_def] at h
+    split at h <;> split at h <;> omega
+  simp only [step, result, exec, addNode]
+  cases h1 : checkRange np count (allPorts w.reg) with
+  | some e => exact ⟨rfl, rfl, rfl⟩
+  | none =>
+    cases h2 : checkRange mp count (allPorts w.reg) with
+    | some e => exact ⟨rfl, rfl, rfl⟩
+    | none =>
+      cases h3 : checkRpc np mp rp count (allPorts w.reg) with
+      | some e => exact ⟨rfl, rfl, rfl⟩
+      | none =>
+        exfalso
+        have hd : checkDisjoint np mp rp = none := by
+          unfold checkRpc at h3
+          split at h3
+          · cases h3
+          · exact h3
+        obtain ⟨o1, o2, o3⟩ := checkDisjoint_none' hd
+        rcases hxy with ⟨h, h'⟩ | ⟨h, h'⟩ | ⟨h, h'⟩
+        · exact hov (overlapErr_none o1 x (by simp [h]) y (by simp [h']))
+        · exact hov (overlapErr_none o2 x (by simp [h]) y (by simp [h']))
+        · exact hov (overlapErr_none o3 x (by simp [h]) y (by simp [h']))
+
+/-- **Post-state: no two services share a port.** An `add` all of whose ports are requested (RPC range given; metrics
+range given or no metrics server) — from any state, whatever faults its installs meet — appends entries such that every
+new entry's ports are pairwise distinct, none of them is recorded by a service that was there before, and no two new
+entries share one. (Ports handed out by `get_available_port` are whatever the OS reports as free at that moment; the
+code compares them with nothing — see `auto_port_not_compared` and the declared assumption.) -/
+theorem no_two_services_share_a_port (w : World) (count : Nat) (np mp : Option (Nat × Nat)) (rr : Nat × Nat)
+    (metrics : Bool) (ver : Nat) (faults : List Fault) (hmp : mp.isSome = true ∨ metrics = false) :
+    ∃ new, (step w (.add count np mp (some rr) metrics ver faults)).reg = w.reg ++ new ∧
+      (∀ e ∈ new, (svcPorts e).Nodup ∧ ∀ p ∈ svcPorts e, p ∉ allPorts w.reg) ∧
+      (∀ e ∈ new, ∀ e' ∈ new, e.number ≠ e'.number → ∀ p ∈ svcPorts e, p ∉ svcPorts e') := by
+  have hnil : ∃ new : List Svc, w.reg = w.reg ++ new ∧
+      (∀ e ∈ new, (svcPorts e).Nodup ∧ ∀ p ∈ svcPorts e, p ∉ allPorts w.reg) ∧
+      (∀ e ∈ new, ∀ e' ∈ new, e.number ≠ e'.number → ∀ p ∈ svcPorts e, p ∉ svcPorts e') :=
+    ⟨[], by simp, fun _ h => (by cases h), fun _ h => (by cases h)⟩
+  simp only [step, exec, addNode]
+  cases h1 : checkRange np count (allPorts w.reg) with
+  | some e => exact hnil
+  | none =>
+    cases h2 : checkRange mp count (allPorts w.reg) with
+    | some e => exact hnil
+    | none =>
+      cases h3 : checkRpc np mp (some rr) count (allPorts w.reg) with
+      | some e => exact hnil
+      | none =>
+        have h3' : checkRange (some rr) count (allPorts w.reg) = none ∧ checkDisjoint np mp (some rr) = none := by
+          unfold checkRpc at h3
+          split at h3
+          · cases h3
+          · rename_i h; exact ⟨h, h3⟩
+        have hpw := checkDisjoint_none h3'.2
+        have hchk : ∀ x ∈ slots np mp (some rr), count = prCount x ∧
+            ∀ p, x.1 ≤ p → p < x.1 + count → p ∉ allPorts w.reg := by
+          intro x hx
+          unfold slots at hx
+          rcases List.mem_append.mp hx with hx | hx
+          · rcases List.mem_append.mp hx with hx | hx
+            · exact checkRange_none h2 x hx
+            · exact checkRange_none h1 x hx
+          · exact checkRange_none h3'.1 x hx
+        have hmp' : (mp.map (·.1)).isSome = true ∨ metrics = false := by
+          rcases hmp with h | h
+          · left; cases mp <;> simp_all
+          · right; exact h
+        obtain ⟨new, hreg, hnew⟩ := addLoop_requested count (startNumber w.reg) (np.map (·.1)) (mp.map (·.1)) rr.1
+          metrics ver ⟨w, ⟨faults, 0⟩, [], [], false, []⟩ hmp'
+        have hoff : ∀ e ∈ new, e.number - startNumber w.reg < count := by
+          intro e he; obtain ⟨g1, g2, _⟩ := hnew e he; omega
+        refine ⟨new, ?_, ?_, ?_⟩
+        · simp only [Option.map_some] at hreg ⊢
+          split
+          · exact hreg
+          · split <;> exact hreg
+        · intro e he
+          rw [newAt_ports (hnew e he)]
+          exact ⟨portsAt_nodup hpw (fun x hx => (hchk x hx).1) (hoff e he),
+            portsAt_free (fun x hx => (hchk x hx).2) (hoff e he)⟩
+        · intro e he e' he' hne p hp
+          rw [newAt_ports (hnew e he)] at hp
+          rw [newAt_ports (hnew e' he')]
+          have g := hnew e he
+          have g' := hnew e' he'
+          exact portsAt_disjoint hpw (fun x hx => (hchk x hx).1) (hoff e he) (hoff e' he')
+            (by have := g.1; have := g'.1; omega) p hp
+
+/-- **Witness for the old shape**: the install loop on overlapping ranges (what `add_node` ran before the ranges were
+compared with each other) records antnode2's node port 8001 = antnode1's metrics port 8001. -/
+theorem overlap_check_needed :
+    (addLoop 2 1 (some 8000) (some 8001) none false 1 ⟨World.init, ⟨[], 0⟩, [], [], false, []⟩).w.reg.map
+      (fun e => (e.number, e.nodePort, e.metricsPort)) = [(1, some 8000, some 8001), (2, some 8001, some 8002)] := by
+  decide
+
+/-- A port handed out by `get_available_port` is compared with nothing: a requested node port equal to the port the OS
+hands out next is recorded twice by one service (in the model the allocator counts up from 30000; on a real OS a port
+that a stopped service records, or one requested for a service that is not started yet, is free and can be handed out).
+Declared assumption: the OS never hands out a port that is recorded or requested. -/
+theorem auto_port_not_compared :
+    (run World.init [.add 1 (some (30000, 30000)) none none false 1 []]).reg.map (fun e => (e.nodePort, e.rpcPort))
+      = [(some 30000, 30000)] := by decide
+
 /-! ## 7. The saved registry loads back to the same state — NOT a Lean theorem
 
 The model has no serialisation of the registry: `NodeRegistry::save` / `load` are serde-derived JSON (plus the custom
@@ -691,6 +820,201 @@ theorem names_dirs_unique_reload (ops : List SOp) :
     exact this _ ⟨List.nodup_nil, List.prefix_refl _⟩
   exact ⟨h.1, h.1.sublist h.2.sublist⟩
 
+theorem pairwise_of_nodup_map {α : Type} {R : α → α → Prop} {f : α → Nat} {l : List α} (hn : (l.map f).Nodup)
+    (h : ∀ a ∈ l, ∀ b ∈ l, f a ≠ f b → R a b) : l.Pairwise R := by
+  induction l with
+  | nil => exact List.Pairwise.nil
+  | cons c r ih =>
+    rw [List.map_cons, List.nodup_cons] at hn
+    rw [List.pairwise_cons]
+    refine ⟨?_, ih hn.2 (fun a ha b hb => h a (List.mem_cons_of_mem _ ha) b (List.mem_cons_of_mem _ hb))⟩
+    intro b hb
+    exact h c (List.mem_cons_self ..) b (List.mem_cons_of_mem _ hb)
+      (fun he => hn.1 (List.mem_map.mpr ⟨b, hb, he.symm⟩))
+
+/-- ... as one statement about the whole registry: if all recorded ports were pairwise distinct before such an `add`
+(and names unique, which `names_dirs_unique` gives for every reachable state), they are afterwards. -/
+theorem add_keeps_ports_distinct (w : World) (count : Nat) (np mp : Option (Nat × Nat)) (rr : Nat × Nat)
+    (metrics : Bool) (ver : Nat) (faults : List Fault) (hmp : mp.isSome = true ∨ metrics = false)
+    (hnum : (w.reg.map (·.number)).Nodup) (hd : (allPorts w.reg).Nodup) :
+    (allPorts (step w (.add count np mp (some rr) metrics ver faults)).reg).Nodup := by
+  obtain ⟨new, hreg, h1, h2⟩ := no_two_services_share_a_port w count np mp rr metrics ver faults hmp
+  have hnum' : ((step w (.add count np mp (some rr) metrics ver faults)).reg.map (·.number)).Nodup := by
+    simp only [step, exec]
+    exact (addNode_numbers w ⟨faults, 0⟩ [] count np mp (some rr) metrics ver hnum).1
+  rw [hreg, List.map_append, List.nodup_append] at hnum'
+  rw [hreg, allPorts_append, List.nodup_append]
+  refine ⟨hd, ?_, ?_⟩
+  · rw [allPorts_eq, List.Nodup, List.pairwise_flatMap]
+    refine ⟨fun e he => (h1 e he).1, ?_⟩
+    exact pairwise_of_nodup_map hnum'.2.1 (fun e he e' he' hne x hx y hy hxy => h2 e he e' he' hne x hx (hxy ▸ hy))
+  · intro a ha b hb hab
+    rw [allPorts_eq] at hb
+    obtain ⟨e, he, hbe⟩ := List.mem_flatMap.mp hb
+    exact (h1 e he).2 b hbe (hab ▸ ha)
+
+/-! ## 8b. The registry FILE: a service recorded Running there has a live process with the recorded pid -/
+
+/-- The file, read as a registry next to the current OS, satisfies the invariants of a world (so that the next
+invocation, which starts from it, starts from a state the theorems of sections 1-5 apply to). -/
+structure SysInv (s : Sys) : Prop where
+  mem : Inv s.w
+  num : SNum s
+  file : Inv ⟨s.file, s.w.os⟩
+
+/-- The running-has-process clause, for the in-memory registry and for the file. -/
+def SysGood (s : Sys) : Prop := AllGood s.w ∧ AllGood ⟨s.file, s.w.os⟩
+
+theorem file_fresh {s : Sys} (h : SNum s) : Fresh s.file (startNumber s.w.reg) := by
+  intro t ht
+  have : t.number ∈ s.w.reg.map (·.number) := h.2.subset (List.mem_map.mpr ⟨t, ht, rfl⟩)
+  obtain ⟨t', ht', he⟩ := List.mem_map.mp this
+  rw [← he]; exact fresh_maxNumber s.w.reg t' ht'
+
+theorem inv_instSub {X : List Svc} {os os' : OS} (h : InstSub os os') (hi : Inv ⟨X, os⟩) : Inv ⟨X, os'⟩ :=
+  ⟨hi.nodup, hi.pid, fun t ht hr => by
+    have h0 : os.isInstalled t.number = false := hi.rem t ht hr
+    show os'.isInstalled t.number = false
+    cases h' : os'.isInstalled t.number with
+    | false => rfl
+    | true => rw [h _ h'] at h0; cases h0⟩
+
+theorem stepS_sys_reload (s : Sys) (h : SysInv s ∧ SysGood s) : SysInv (stepS s .reload) ∧ SysGood (stepS s .reload) := by
+  obtain ⟨⟨_, _, hf⟩, _, hgf⟩ := h
+  rw [stepS_reload]
+  exact ⟨⟨hf, ⟨hf.nodup, List.prefix_refl _⟩, hf⟩, hgf, hgf⟩
+
+theorem stepS_sys_op (s : Sys) (o : Op) (hk : o.isKill = false) (h : SysInv s ∧ SysGood s) :
+    SysInv (stepS s (.op o)) ∧ SysGood (stepS s (.op o)) := by
+  obtain ⟨⟨hm, hn, hf⟩, hg, hgf⟩ := h
+  have hnum := stepS_snum_op s o hn
+  by_cases hadd : ∃ c np mp rp m v f, o = .add c np mp rp m v f
+  · obtain ⟨c, np, mp, rp, m, v, f, rfl⟩ := hadd
+    have hspec := addNode_spec s.w ⟨f, 0⟩ s.file c np mp rp m v hm
+    have hprocs := addNode_procs s.w ⟨f, 0⟩ s.file c np mp rp m v
+    have hside := addNode_side s.w ⟨f, 0⟩ s.file c np mp rp m v s.file (file_fresh hn) hf
+    have hgside : AllGood ⟨s.file, (addNode s.w ⟨f, 0⟩ s.file c np mp rp m v).1.os⟩ :=
+      fun t ht => good_mono (ProcsKept.of_eq hprocs) (hgf t ht)
+    have hfile : Inv ⟨(addNode s.w ⟨f, 0⟩ s.file c np mp rp m v).2.2.2, (addNode s.w ⟨f, 0⟩ s.file c np mp rp m v).1.os⟩ ∧
+        AllGood ⟨(addNode s.w ⟨f, 0⟩ s.file c np mp rp m v).2.2.2, (addNode s.w ⟨f, 0⟩ s.file c np mp rp m v).1.os⟩ := by
+      rcases addNode_file0 s.w ⟨f, 0⟩ s.file c np mp rp m v with ⟨_, h2⟩ | h2
+      · rw [h2]; exact ⟨hside, hgside⟩
+      · rw [h2]; exact ⟨hspec.1, hspec.2.1 hg⟩
+    rw [stepS_add] at hnum ⊢
+    refine ⟨⟨hspec.1, hnum, ?_⟩, hspec.2.1 hg, ?_⟩
+    · dsimp only
+      split
+      · exact hspec.1
+      · exact hfile.1
+    · dsimp only
+      split
+      · exact hspec.2.1 hg
+      · exact hfile.2
+  · have hna : ∀ c np mp rp m v f, o ≠ .add c np mp rp m v f :=
+      fun c np mp rp m v f h => hadd ⟨c, np, mp, rp, m, v, f, h⟩
+    have hspec := exec_spec s.w o hm
+    rw [stepS_nonadd s o hna] at hnum ⊢
+    cases hs : callerSaves s.w o (exec s.w o).2.1 with
+    | true =>
+      simp only [hs, if_true] at hnum ⊢
+      exact ⟨⟨hspec.1, hnum, hspec.1⟩, hspec.2.1 hk hg, hspec.2.1 hk hg⟩
+    | false =>
+      simp only [hs] at hnum ⊢
+      obtain ⟨hpk, his⟩ := exec_unsaved_procsKept s.w o hk hna hs
+      exact ⟨⟨hspec.1, hnum, inv_instSub his hf⟩, hspec.2.1 hk hg, fun t ht => good_mono hpk (hgf t ht)⟩
+
+theorem sopAll_isKill (op : SOp) (h : op.isKill = false) : op.All (fun o => o.isKill = false) := by
+  cases op <;> first | exact h | trivial
+
+/-- **The running-has-process clause holds of the registry FILE as well**, after every step of every history of
+operations, whole `antctl` commands (`cmd`), daemon restarts and reloads, under any faults of all three outcomes (only
+outside events excluded, as in `running_has_process`): every entry the file records as Running has a live process of
+that service with the recorded pid — so the next `antctl` / `antctld` invocation, which starts from the file, starts
+from a registry for which the clause holds (second disjunct: the in-memory registry at any point of such a history,
+which generalises `running_has_process` to histories with reloads). The proof needs that every caller of an operation
+that can kill a process saves in BOTH arms of the result: `stop` (`stopSavesOnErr`: the repair of this round — a
+`service_control.stop` that kills and then reports failure is recorded by `ServiceManager::stop`, and `cmd::node::stop`
+dropped that record at process exit), `upgrade`, the daemon's `restart_handler` — flags regenerated from cmd/node.rs and
+bin/daemon/main.rs. -/
+theorem running_has_process_file (ops : List SOp) (hk : ∀ op ∈ ops, op.isKill = false) (t : Svc)
+    (ht : t ∈ (runS Sys.init ops).file ∨ t ∈ (runS Sys.init ops).w.reg) (hr : t.status = .running) :
+    ∃ p ∈ (runS Sys.init ops).w.os.procs, p.svc = t.number ∧ t.pid = some p.pid := by
+  have h0 : SysInv Sys.init ∧ SysGood Sys.init :=
+    ⟨⟨inv_init, ⟨List.nodup_nil, List.prefix_refl _⟩, inv_init⟩, good_init, good_init⟩
+  have h := runS_closed (P := fun s => SysInv s ∧ SysGood s) (Q := fun o => o.isKill = false)
+    stepS_sys_reload stepS_sys_op rfl ops (fun op hop => sopAll_isKill op (hk op hop)) Sys.init h0
+  rcases ht with ht | ht
+  · exact h.2.2 t ht hr
+  · exact h.2.1 t ht hr
+
+/-- The command layer before the repair: `cmd::node::stop` saved in the `Ok` arm only. -/
+def stopUnsaved : CmdCfg := { CmdCfg.gen with stopSavesOnErr := false }
+
+/-- **Witness for the old shape** (`add ; start 0 ; antctl stop 0` whose `service_control.stop` kills the process and then
+reports failure): the in-memory registry records the stop (the repair of round 5), the command exits without saving,
+and the file — what every later invocation starts from — records Running with pid 100 while no process is left. -/
+theorem running_has_process_file_witness :
+    (runSC stopUnsaved Sys.init [.op (.add 1 none none none false 1 []), .op (.start 0 false []),
+      .cmd (.stop 0 [.failAfter])]).file.map (fun t => (t.status, t.pid)) = [(.running, some 100)] ∧
+    (runSC stopUnsaved Sys.init [.op (.add 1 none none none false 1 []), .op (.start 0 false []),
+      .cmd (.stop 0 [.failAfter])]).w.os.procs = [] ∧
+    (runSC stopUnsaved Sys.init [.op (.add 1 none none none false 1 []), .op (.start 0 false []),
+      .cmd (.stop 0 [.failAfter])]).w.reg.map (fun t => (t.status, t.pid)) = [(.stopped, none)] := by decide
+
+/-! ## 8c. Whole `antctl` commands -/
+
+theorem sys_inv_of_history (ops : List SOp) (hk : ∀ op ∈ ops, op.isKill = false) :
+    SysInv (runS Sys.init ops) ∧ SysGood (runS Sys.init ops) :=
+  runS_closed (P := fun s => SysInv s ∧ SysGood s) (Q := fun o => o.isKill = false)
+    stepS_sys_reload stepS_sys_op rfl ops (fun op hop => sopAll_isKill op (hk op hop)) Sys.init
+    ⟨⟨inv_init, ⟨List.nodup_nil, List.prefix_refl _⟩, inv_init⟩, good_init, good_init⟩
+
+/-- **A successful `antctl stop` / `antctl remove` leaves no process and no recorded pid — in full strength**, i.e.
+without the hypothesis "no unrecorded live process" that the bare `ServiceManager::stop` / `remove` need (K-s-orphan):
+the command loads the registry and runs the partial refresh in front of the operation (`stopRefreshFirst`,
+`removeRefreshFirst`: regenerated from cmd/node.rs, statement order included), and the refresh records every live
+process. `t` is the entry as the command loads it from the file; the history may contain any faults (in particular
+starts whose RPC query failed after the launch). Dropping the leading refresh from either command breaks this theorem. -/
+theorem cmd_stop_remove_leave_nothing (ops : List SOp) (hk : ∀ op ∈ ops, op.isKill = false) (op : Op) (i : Nat)
+    (t : Svc) (hop : isStopOrRemove i op = true) (hget : (runS Sys.init ops).file[i]? = some t)
+    (hok : (execS (runS Sys.init ops) (.cmd op)).2.1.failed = false) :
+    NoProc (stepS (runS Sys.init ops) (.cmd op)).w.os t.number ∧
+    ∃ t', (stepS (runS Sys.init ops) (.cmd op)).w.reg[i]? = some t' ∧ t'.pid = none := by
+  have hsys := (sys_inv_of_history ops hk).1
+  generalize runS Sys.init ops = s at *
+  have hna : ∀ c np mp rp m v f, op ≠ .add c np mp rp m v f := by
+    intro c np mp rp m v f h; subst h; simp [isStopOrRemove] at hop
+  have hrf : refreshFirst CmdCfg.gen op = true := by
+    cases op <;> first | (simp [isStopOrRemove] at hop; done) | exact gen_refresh_first.1 | exact gen_refresh_first.2.1
+  have hentry : cmdEntry CmdCfg.gen s op = ⟨⟨s.file.map (svcRefresh s.w.os), s.w.os⟩, s.file⟩ := by
+    simp [cmdEntry, hrf]
+  have hstep : stepS s (.cmd op) = (execS (cmdEntry CmdCfg.gen s op) (.op op)).1 := by
+    show (execS s (.cmd op)).1 = _
+    rw [execS_cmd_ok hok]
+  rw [execS_cmd_ok hok, execS_nonadd _ _ hna, hentry] at hok
+  rw [hstep, execS_nonadd _ _ hna, hentry]
+  simp only at hok ⊢
+  have hget2 : (s.file.map (svcRefresh s.w.os))[i]? = some (svcRefresh s.w.os t) := by
+    rw [List.getElem?_map, hget]; rfl
+  have hpid2 : PidOk (svcRefresh s.w.os t) := svcRefresh_pidOk _ _ (hsys.file.pid t (List.mem_of_getElem? hget))
+  have hno2 : NoOrphan ⟨s.file.map (svcRefresh s.w.os), s.w.os⟩ (svcRefresh s.w.os t) :=
+    fun hnr => refreshed_noOrphan (svcRefresh_refreshed s.w.os t) hnr
+  have := stop_remove_step ⟨s.file.map (svcRefresh s.w.os), s.w.os⟩ op i _ hop hget2 hpid2 hno2 hok
+  rw [svcRefresh_number] at this
+  exact this
+
+/-- **A command that succeeded has saved what it holds**: after a successful `antctl add / start / stop / remove /
+upgrade / status` the registry file is the in-memory registry — what "the registry saved after each step" means for
+the command layer. Removing the `save()` from an `Ok` arm (or from behind the `?` in `add` / `status`) breaks this
+theorem. (The serialisation itself is not modelled: oracle clause save-load-identity.) -/
+theorem cmd_success_is_saved (s : Sys) (o : Op) (hc : o.isCommand = true)
+    (hok : (execS s (.cmd o)).2.1.failed = false) :
+    (stepS s (.cmd o)).file = (stepS s (.cmd o)).w.reg := by
+  show (execS s (.cmd o)).1.file = (execS s (.cmd o)).1.w.reg
+  have h := execS_cmd_ok hok
+  rw [h] at hok ⊢
+  exact execOp_ok_saved _ o hc hok
+
 /-- Every service definition the OS holds is recorded in the registry file. -/
 def SInst (s : Sys) : Prop := ∀ n, s.w.os.isInstalled n = true → n ∈ s.file.map (·.number)
 
@@ -893,9 +1217,18 @@ end SafeNet.Props.C19
 #print axioms SafeNet.Props.C19.names_dirs_unique
 #print axioms SafeNet.Props.C19.names_dirs_unique_index
 #print axioms SafeNet.Props.C19.requested_port_refused
+#print axioms SafeNet.Props.C19.requested_twice_refused
+#print axioms SafeNet.Props.C19.no_two_services_share_a_port
+#print axioms SafeNet.Props.C19.add_keeps_ports_distinct
+#print axioms SafeNet.Props.C19.overlap_check_needed
+#print axioms SafeNet.Props.C19.auto_port_not_compared
 #print axioms SafeNet.Props.C19.saved_after_each_install
 #print axioms SafeNet.Props.C19.recorded_is_saved
 #print axioms SafeNet.Props.C19.names_dirs_unique_reload
+#print axioms SafeNet.Props.C19.running_has_process_file
+#print axioms SafeNet.Props.C19.running_has_process_file_witness
+#print axioms SafeNet.Props.C19.cmd_stop_remove_leave_nothing
+#print axioms SafeNet.Props.C19.cmd_success_is_saved
 #print axioms SafeNet.Props.C19.installed_recorded_in_file
 #print axioms SafeNet.Props.C19.installed_recorded_needs_clean
 #print axioms SafeNet.Props.C19.refresh_records_os_pid
